@@ -408,7 +408,7 @@ Lemma slash_assets_sinfos_m s e q f :
   match slash_assets s e q f with Ok (s1, _) => s_sinfos s1 = s_sinfos s | _ => True end.
 Proof.
   unfold slash_assets. destruct (op_value (v_assets e) (q_op q) (s_pools s)) as [total| |]; try exact I.
-  destruct (total =? 0); [exact I|].
+  destruct (negb (0 <? total)); [exact I|].
   destruct (if q_event q <=? v_height e then _ else _) as [recs' exu].
   destruct (walk_pools _ _ _ _) as [pools' exp]. reflexivity.
 Qed.
@@ -425,18 +425,37 @@ Proof.
   unfold store_sinfo. rewrite (slash_assets_sinfos _ _ _ _ _ _ Ea), Hd. split; [reflexivity|discriminate].
 Qed.
 
-Lemma slash_panic s e q : snd (slash s e q) = RPanic ->
-  priced (v_assets e) (q_op q) (s_pools s) = true /\ value_of (v_assets e) (q_op q) (s_pools s) = 0.
+Lemma slash_assets_no_panic s e q f : slash_assets s e q f <> Panic.
+Proof.
+  unfold slash_assets.
+  destruct (op_value (v_assets e) (q_op q) (s_pools s)) as [total| |] eqn:Ev; try discriminate.
+  - destruct (negb (0 <? total)); [discriminate|].
+    destruct (if q_event q <=? v_height e then _ else _) as [recs' exu].
+    destruct (walk_pools _ _ _ _) as [pools' exp]. discriminate.
+  - exfalso. eapply op_value_no_panic. eassumption.
+Qed.
+
+(* the model of Keeper.Slash has no panic outcome left *)
+Lemma slash_never_panics s e q : snd (slash s e q) <> RPanic.
 Proof.
   unfold slash. destruct (negb (check_param (v_height e) q)); [discriminate|].
   destruct (q_factor q) as [f|]; [|discriminate].
+  pose proof (slash_assets_no_panic s e q f) as K.
+  destruct (slash_assets s e q f) as [[s1 ex]| |]; try discriminate; [|contradiction].
+  destruct (store_sinfo s1 e q f ex); discriminate.
+Qed.
+
+(* an operator whose staking + unbonding value is not positive: error, nothing changes *)
+Lemma slash_zero_value s e q : priced (v_assets e) (q_op q) (s_pools s) = true ->
+  value_of (v_assets e) (q_op q) (s_pools s) <= 0 ->
+  fst (slash s e q) = s /\ snd (slash s e q) = RErr.
+Proof.
+  intros Hpr Hv. unfold slash. destruct (negb (check_param (v_height e) q)); [split; reflexivity|].
+  destruct (q_factor q) as [f|]; [|split; reflexivity].
   unfold slash_assets.
-  destruct (op_value (v_assets e) (q_op q) (s_pools s)) as [total| |] eqn:Ev; try discriminate.
-  - destruct (Z.eqb_spec total 0) as [E0|E0].
-    + intros _. subst. apply op_value_spec. assumption.
-    + destruct (if q_event q <=? v_height e then _ else _) as [recs' exu].
-      destruct (walk_pools _ _ _ _) as [pools' exp].
-      destruct (store_sinfo _ _ _ _ _); discriminate.
+  destruct (op_value (v_assets e) (q_op q) (s_pools s)) as [total| |] eqn:Ev; try (split; reflexivity).
+  - destruct (op_value_spec _ _ _ _ Ev) as [_ Hval]. rewrite Hval in Hv.
+    destruct (Z.ltb_spec 0 total); [lia|]. split; reflexivity.
   - exfalso. eapply op_value_no_panic. eassumption.
 Qed.
 
@@ -461,7 +480,7 @@ Lemma slash_assets_spec s e q f :
 Proof.
   intros Hnn Hsane Hq Hf0 Hpw. unfold slash_assets.
   destruct (op_value (v_assets e) (q_op q) (s_pools s)) as [total| |] eqn:Ev; try exact I.
-  destruct (Z.eqb_spec total 0) as [E0|E0]; [exact I|].
+  destruct (Z.ltb_spec 0 total) as [E0|E0]; cbn [negb]; [|exact I].
   destruct (op_value_spec _ _ _ _ Ev) as [Hpr Hval].
   unfold st_nonneg in Hnn. apply andb_prop in Hnn. destruct Hnn as [Hnn Hnd]. apply andb_prop in Hnn. destruct Hnn as [Hnp Hnr].
   pose proof (value_of_nonneg (v_assets e) (q_op q) (s_pools s) Hsane Hnp) as Hv0.
@@ -545,8 +564,7 @@ Proof.
   - destruct (snd (slash s e q)) eqn:Er.
     + destruct (slash_executed s e q Hnn Hs Er) as [f [Hf [Hd He]]]. rewrite Hf, Hd, He. reflexivity.
     + rewrite slash_not_ok by (rewrite Er; discriminate). apply st_eqb_refl.
-    + rewrite slash_not_ok by (rewrite Er; discriminate). rewrite st_eqb_refl. simpl.
-      destruct (slash_panic s e q Er) as [H1 H2]. rewrite H1, H2. reflexivity.
+    + exfalso. exact (slash_never_panics s e q Er).
     + exfalso. unfold slash in Er. destruct (negb (check_param (v_height e) q)); [discriminate|].
       destruct (q_factor q); [|discriminate]. destruct (slash_assets s e q z) as [[s1 ex]| |]; try discriminate.
       destruct (store_sinfo s1 e q z ex); discriminate.
@@ -567,8 +585,7 @@ Proof.
     + destruct (slash_executed s e q Hnn Hs Er) as [f' [Hf' [Hd He]]]. rewrite Hf', Hd, He.
       destruct c; try contradiction; rewrite orb_true_r; reflexivity.
     + rewrite slash_not_ok by (rewrite Er; discriminate). rewrite st_eqb_refl, Hf. destruct c; try contradiction; reflexivity.
-    + rewrite slash_not_ok by (rewrite Er; discriminate). rewrite st_eqb_refl. simpl.
-      destruct (slash_panic s e q Er) as [H1 H2]. rewrite H1, H2. reflexivity.
+    + exfalso. exact (slash_never_panics s e q Er).
     + rewrite slash_not_ok by (rewrite Er; discriminate). rewrite st_eqb_refl, Hf. destruct c; try contradiction; reflexivity.
 Qed.
 
@@ -706,7 +723,7 @@ Lemma slash_assets_nonneg s e q f : st_nonneg s = true -> env_sane e = true -> 0
 Proof.
   intros Hnn Hsane Hf0 Hpw. unfold slash_assets.
   destruct (op_value (v_assets e) (q_op q) (s_pools s)) as [total| |] eqn:Ev; try exact I.
-  destruct (Z.eqb_spec total 0) as [E0|E0]; [exact I|].
+  destruct (Z.ltb_spec 0 total) as [E0|E0]; cbn [negb]; [|exact I].
   destruct (op_value_spec _ _ _ _ Ev) as [Hpr Hval].
   unfold st_nonneg in Hnn. apply andb_prop in Hnn. destruct Hnn as [Hnn Hnd]. apply andb_prop in Hnn. destruct Hnn as [Hnp Hnr].
   pose proof (value_of_nonneg (v_assets e) (q_op q) (s_pools s) Hsane Hnp) as Hv0.
